@@ -44,6 +44,13 @@ CHECKS.update({
             "DESIGN.md §4 C02"),
 })
 
+CHECKS.update({
+    "C03": ("simquic+sched", "reference-automaton runtime monitor: a raw scripted peer plays every frame sequence up to length N x ending x side against the real endpoint over the simulated transport; API transcript and QUIC close code compared with the RFC 9114 §4.1 automaton",
+            "All sequences up to length 4 (quick) / 5 (thorough) over the 11-token alphabet x {FIN, RESET, open} x {server, client} are played (several schedules each for sequences that are not refused at once) plus sampled longer ones; the transcript of API outcomes and the close code must match the reference automaton. Held-on-observed.",
+            "Trusts the automaton in props/c03.rs and the simulator; PUSH_PROMISE / FIN-before-HEADERS on the client side are don't-care; RESET may overtake data.",
+            "DESIGN.md §4 C03"),
+})
+
 NOT_YET = {}
 
 def main():
